@@ -20,8 +20,10 @@ from icalendar.timezone import tzp
 IDMAP = {"K1": "Europe/Berlin", "K2": "America/New_York", "U": "Custom/Nowhere",
          "K3": "Asia/Tokyo", "K4": "Africa/Cairo", "U2": "My Own Zone",
          # ids the provider resolves under another spelling: the VTIMEZONE that closes the gap must carry THIS spelling
-         "K5": "W. Europe Standard Time", "K6": "/America/New_York", "K7": "US/Eastern"}
-ALIAS = {"K5", "K6", "K7"}
+         "K5": "W. Europe Standard Time", "K6": "/America/New_York", "K7": "US/Eastern",
+         # UTC named by an explicit TZID parameter (not the Z suffix) is a used id like any other
+         "K8": "UTC", "K9": "Etc/UTC"}
+ALIAS = {"K5", "K6", "K7", "K8", "K9"}
 REV = {v: k for k, v in IDMAP.items()}
 F, L_ = date(2020, 1, 1), date(2021, 6, 1)
 CUSTOM = """BEGIN:VTIMEZONE\r\nTZID:%s\r\nBEGIN:STANDARD\r\nDTSTART:19700101T000000\r\nTZOFFSETFROM:+0200\r\nTZOFFSETTO:+0200\r\nTZNAME:CST\r\nEND:STANDARD\r\nEND:VTIMEZONE\r\n"""
@@ -194,7 +196,7 @@ def run(ctx: Ctx):
     # ------------------------------------------------------------- RECORD: richer calendars
     ev, meta = [], []
     n = 60 if ctx.quick else 600
-    ids = ["K1", "K2", "K3", "K4", "U", "U2", "K5", "K6", "K7"]
+    ids = ["K1", "K2", "K3", "K4", "U", "U2", "K5", "K6", "K7", "K8", "K9"]
     sites = ["single", "list", "period", "nested", "due", "second-of-many"]
     try:
         for i in range(n):
@@ -212,7 +214,7 @@ def run(ctx: Ctx):
     finally:
         tzp.use_default()
     ctx.sample({"trace_event": ev[0]})
-    cfg = cfg_text(spec="Spec2", constants={"Ids": set(ids), "Known": {"K1", "K2", "K3", "K4", "K5", "K6", "K7"}, "Sites": set(sites),
+    cfg = cfg_text(spec="Spec2", constants={"Ids": set(ids), "Known": {"K1", "K2", "K3", "K4", "K5", "K6", "K7", "K8", "K9"}, "Sites": set(sites),
                                            "MaxUses": 9, "MaxTz": 2, "Old": False})
     for idx, clause, known in ctx.validate_trace("Trace_UsedTzids", ev, cfg, chunk=5000, timeout=1200):
         ctx.fail(clause, meta[idx], ev[idx]["seq"], None)
